@@ -21,6 +21,45 @@ var c14Pool = []string{
 	"AND BYTE [0x0ff1],0xfe", "OR BYTE [0x0ff1],0x01", "XOR AX,AX", "NOT BX", "SHL AX,2", "SHR EBX,16", "IMUL CX,3",
 	"IN AL,0x60", "OUT 0x21,AL", "IN AL,DX", "PUSH AX", "POP BX", "PUSH ES", "INT 0x10", "HLT", "RET", "CLI",
 	"DB 1,2", "DW 0xaa55", "DD 70000", "RESB 3", "DB \"ab\"", "MOV AL,BYTE [SI]", "CMP BYTE [SI],0",
+	// accumulator / moffs forms and register pairs sharing an operand with
+	// other pool members (table lookups that could remember their neighbour)
+	"MOV AL,[0x1234]", "MOV [0x1234],AX", "MOV EAX,[0x1234]", "MOV AX,[SI]", "MOV [BX],AX", "MOV EAX,[EBX]",
+	"MOV CL,AL", "CMP CL,5", "ADD BX,AX", "MOV ECX,EAX", "ADD AX,1000", "PUSH 1000",
+}
+
+// c14Related: statements more likely to interfere through shared lookup
+// state: same mnemonic or same first operand.
+func c14Related(a, b string) bool {
+	ma, oa, _ := strings.Cut(a, " ")
+	mb, ob, _ := strings.Cut(b, " ")
+	fa, _, _ := strings.Cut(oa, ",")
+	fb, _, _ := strings.Cut(ob, ",")
+	return ma == mb || (fa != "" && fa == fb)
+}
+
+// asmFresh assembles body in a fresh process state (vrt.Isolated): the
+// result is what the statement gives on its own, whatever was assembled
+// before in this run.  Encoded as [ok, diagnosed, bytes...].
+func asmFresh(body string, mode int, tag string) ([]byte, string, bool) {
+	r := vrt.Isolated(func() []byte {
+		out, oc, d := asmPlain(body, mode, tag)
+		res := []byte{0, 0}
+		if oc == "ok" {
+			res[0] = 1
+		}
+		if d {
+			res[1] = 1
+		}
+		return append(res, out...)
+	})
+	if len(r) < 2 {
+		return nil, "no-result", true
+	}
+	oc := "failed"
+	if r[0] == 1 {
+		oc = "ok"
+	}
+	return r[2:], oc, r[1] == 1
 }
 
 func asmPlain(body string, mode int, tag string) ([]byte, string, bool) {
@@ -41,15 +80,18 @@ func VC14() {
 		// seed parameter), plus itself
 		var sel []string
 		for i, s := range c14Pool {
-			if i%3 == vrt.Param("phase")%3 || s == a {
+			if i%3 == vrt.Param("phase")%3 || s == a || c14Related(a, s) {
 				sel = append(sel, s)
 			}
 		}
 		pb = sel
 	}
 	b := vrt.ChooseStr("b", pb)
-	oa, oca, da := asmPlain(a, mode, "a")
-	ob, ocb, db := asmPlain(b, mode, "b")
+	// the references come from fresh states, so that state a statement leaves
+	// behind (in the process, not only in the assembler's context) shows up
+	// as a difference in the joint assembly rather than cancelling out
+	oa, oca, da := asmFresh(a, mode, "a")
+	ob, ocb, db := asmFresh(b, mode, "b")
 	oab, ocab, dab := asmPlain(a+"\n"+b, mode, "ab")
 	vrt.Note("a", a)
 	vrt.Note("b", b)
